@@ -3,7 +3,7 @@
    observation is rebuilt by asking it about every path over the keys that occur in the case
    (plus mode/kernel/memory/stream), so it does not go through any of the model's tree operations.
    `S ?` = the specification does not define the case (an exception is allowed), `k?` etc. likewise
-   for the per-call parts.  C26_VARIANT=pinned selects the model of the code before fixes/C26-1.patch. *)
+   for the per-call parts.  C26_VARIANT=pinned selects the model of the code before fixes/C26-{1,2}.patch. *)
 let explode s = List.init (String.length s) (String.get s)
 let implode l = String.concat "" (List.map (String.make 1) l)
 
